@@ -574,7 +574,7 @@ fn extraction_case(rng: &mut Rng, rep: &mut Report, use_extract_archives: bool) 
         let tdir = temp_dirs[0].1.path().to_path_buf();
         let reported: Vec<PathBuf> = res.iter().map(PathBuf::from).collect();
         // check while the temp dir is alive
-        let r = check_extraction(rep, &members, &by_name, pat_idx, &tdir, &reported, true, sb, &before, &rp);
+        let r = check_extraction(rep, &members, &by_name, pat_idx, &tdir, &reported, true, sb, &before, &HashMap::new(), &rp);
         drop(temp_dirs);
         let _ = r;
         return;
@@ -587,6 +587,23 @@ fn extraction_case(rng: &mut Rng, rep: &mut Report, use_extract_archives: bool) 
         } else {
             None
         };
+        // 1/3 of the filtered extractions rename some requested members (as extract_archives does for single member archives):
+        // stored and reported under the new name
+        let mut renames: HashMap<String, String> = HashMap::new();
+        if let Some(names) = &filter {
+            if rng.chance(1, 3) {
+                for (k, name) in names.iter().enumerate() {
+                    let unique = members.iter().filter(|m| normalize(Path::new(&m.name)) == normalize(Path::new(name))).count() == 1;
+                    let plain = !leads_outside(name) && normalize(Path::new(name)).to_string_lossy() == name.as_str();
+                    if unique && plain && rng.chance(1, 2) {
+                        renames.insert(name.clone(), format!("__renamed__/r{}.bin", k));
+                    }
+                }
+                if !renames.is_empty() {
+                    rep.inc("extractions_with_a_rename_map");
+                }
+            }
+        }
         // a re-used target directory: some of the requested members are there already (left by an earlier extraction of
         // the same archive with a narrower pattern); they are skipped but reported, the others are still extracted
         if let Some(names) = &filter {
@@ -595,7 +612,10 @@ fn extraction_case(rng: &mut Rng, rep: &mut Report, use_extract_archives: bool) 
                 for name in names {
                     let unique = members.iter().filter(|m| normalize(Path::new(&m.name)) == normalize(Path::new(name))).count() == 1;
                     if unique && !leads_outside(name) && rng.chance(1, 3) {
-                        let p = target.join(name);
+                        let p = target.join(renames.get(name).unwrap_or(name));
+                        if renames.contains_key(name) {
+                            rep.inc("renamed_members_already_present");
+                        }
                         if let Some(parent) = p.parent() {
                             let _ = std::fs::create_dir_all(parent);
                         }
@@ -613,7 +633,7 @@ fn extraction_case(rng: &mut Rng, rep: &mut Report, use_extract_archives: bool) 
         }
         let vols = split_volumes(rng, &zip);
         let chain = SeekableChain::new(vols.into_iter().map(Cursor::new).collect::<Vec<_>>());
-        let res = crate::guard::catch(|| extract_to_dir(chain, &target, filter.clone(), &HashMap::new(), &shall_cancel));
+        let res = crate::guard::catch(|| extract_to_dir(chain, &target, filter.clone(), &renames, &shall_cancel));
         match res {
             Err(pi) => {
                 rep.violation(&pi.class(), format!("panic at {}:{} {}", pi.file, pi.line, pi.msg), rp());
@@ -626,7 +646,7 @@ fn extraction_case(rng: &mut Rng, rep: &mut Report, use_extract_archives: bool) 
             Ok(Ok(v)) => {
                 let all = filter.is_none();
                 let reported: Vec<PathBuf> = v.iter().map(|p| target.join(p)).collect();
-                let _ = check_extraction(rep, &members, &by_name, if all { 0 } else { pat_idx }, &target, &reported, false, sb, &before, &rp);
+                let _ = check_extraction(rep, &members, &by_name, if all { 0 } else { pat_idx }, &target, &reported, false, sb, &before, &renames, &rp);
                 (target, reported)
             }
         }
@@ -645,9 +665,12 @@ fn check_extraction(
     reported_abs: bool,
     sandbox: &Path,
     before: &BTreeMap<PathBuf, Vec<u8>>,
+    renames: &HashMap<String, String>,
     rp: &dyn Fn() -> serde_json::Value,
 ) -> bool {
     let _ = reported_abs;
+    // members extracted under another name (rename map): reported and stored under the new name, content of the member
+    let inverse: HashMap<&str, &str> = renames.iter().map(|(a, b)| (b.as_str(), a.as_str())).collect();
     let tnorm = normalize(tdir);
     // expected set of names
     let mut expected: Vec<String> = members.iter().filter(|m| pattern_matches(pat_idx, &m.name) && !m.name.ends_with('/') && !leads_outside(&m.name)).map(|m| m.name.clone()).collect();
@@ -663,6 +686,13 @@ fn check_extraction(
             return false;
         }
         let rel = p.strip_prefix(tdir).map(|r| r.to_string_lossy().to_string()).unwrap_or_default();
+        let rel = match inverse.get(rel.as_str()) {
+            Some(orig) => {
+                rep.inc("renamed_members_reported_under_the_new_name");
+                orig.to_string()
+            }
+            None => rel,
+        };
         // content
         let content = match std::fs::read(p) {
             Ok(c) => c,
